@@ -43,6 +43,11 @@ ObsOf(e) ==
          ELSE <<[r |-> Core(e.res), pos |-> <<>>]>>
     [] OTHER -> <<>>
 
+\* C03 speaks about policies that permit the needed size: from the first buffer-limit error on, a run is outside the
+\* comparison (the stream keeps that error as its last element and is compared without it)
+HitLimit(o) == o # <<>> /\ o[Len(o)].r.k = "buffer_limit"
+Comparable(o) == IF HitLimit(o) THEN SubSeq(o, 1, Len(o) - 1) ELSE o
+
 Reset(e) ==
   /\ fmt' = e.fmt /\ run' = l /\ flt' = e.fault /\ pp' = e.pp
   /\ chain' = IF e.fmt = "fasta" THEN FaChain(e.input) ELSE FqChain(e.input)
@@ -58,23 +63,28 @@ Call(e0) ==
        /\ (j.viol # {} => Report("call", j.viol, [op |-> e.op, res |-> Core(e.res), ctx |-> s.ctx, mode |-> s.mode]))
        /\ s' = IF j.viol # {} THEN [j.s EXCEPT !.mode = "lost"] ELSE j.s
        \* the observation of a mismatching call is kept: streams are compared up to where a run was cut short
-       /\ obs' = IF pp = "" THEN obs ELSE obs \o ObsOf(e)
+       /\ obs' = IF pp = "" \/ HitLimit(obs) THEN obs
+                 ELSE LET o == ObsOf(e)
+                          k == {i \in 1..Len(o) : o[i].r.k = "buffer_limit"}
+                      IN obs \o (IF k = {} THEN o ELSE SubSeq(o, 1, Min(k)))
        /\ UNCHANGED <<fmt, chain, run, flt, ref, reflost, pp>>
 
 \* `cut`: this run was cut short by a mismatch (or by a panic): only the common prefix can be compared
 End(e) ==
-  LET cut == s.mode = "lost"
-      setsbad == ~cut /\ ~e.sets_panic /\ [u \in 1..Len(e.sets) |-> Strip(e.sets[u])] # s.sets
-      panicbad == ~cut /\ e.sets_panic
-      n == IF Len(obs) < Len(ref) THEN Len(obs) ELSE Len(ref)
+  LET cut == s.mode = "lost" \/ HitLimit(obs)
+      lost == s.mode = "lost"
+      obsC == Comparable(obs)
+      setsbad == ~lost /\ ~e.sets_panic /\ [u \in 1..Len(e.sets) |-> Strip(e.sets[u])] # s.sets
+      panicbad == ~lost /\ e.sets_panic
+      n == IF Len(obsC) < Len(ref) THEN Len(obsC) ELSE Len(ref)
       pairbad == /\ pp # "" /\ Rec[run].first = FALSE
-                 /\ \/ SubSeq(obs, 1, n) # SubSeq(ref, 1, n)
-                    \/ (~cut /\ ~reflost /\ Len(obs) # Len(ref))
+                 /\ \/ SubSeq(obsC, 1, n) # SubSeq(ref, 1, n)
+                    \/ (~cut /\ ~reflost /\ Len(obsC) # Len(ref))
       viol == (IF setsbad THEN {<<"C04", "record_set_changed_by_a_later_call">>} ELSE {})
               \cup (IF panicbad THEN {<<"C06", "iterating_record_set_panicked">>} ELSE {})
               \cup (IF pairbad THEN {<<pp, "observations_differ_between_configurations">>} ELSE {})
   IN /\ (viol # {} => Report("end", viol, [n |-> Len(obs), nref |-> Len(ref)]))
-     /\ ref' = IF pp # "" /\ Rec[run].first THEN obs ELSE ref
+     /\ ref' = IF pp # "" /\ Rec[run].first THEN obsC ELSE ref
      /\ reflost' = IF pp # "" /\ Rec[run].first THEN cut ELSE reflost
      /\ s' = [s EXCEPT !.mode = "lost"]
      /\ UNCHANGED <<fmt, chain, run, flt, obs, pp>>
